@@ -353,7 +353,8 @@ def run(P, rep, tier):
                        'final register term is compared with the term C11 prescribes. Decides mnemonic, operand roles, width, signedness family, dividend preparation '
                        'for every node of that kind and type; does not evaluate concrete operand values.')
     rep.assumptions += ['children leave their value per the register convention stated in codegen.c load(): sub-int values extended to 32 bits, upper half undefined',
-                        'instruction semantics per Intel SDM for the mnemonics chibicc emits (sa/x86.py)', 'typing relation of add_type (operands already converted to the common type)']
+                        'instruction semantics per Intel SDM for the mnemonics chibicc emits (sa/x86.py)', 'typing relation of add_type (operands already converted to the common type)',
+                        'R01.14/R01.15 evaluate the trees the parser builds with a reference evaluator of the node language: ND_CAST converts per R01.5, arithmetic nodes compute in the width of their type per R01.6, ND_ASSIGN stores the low bytes of its right operand and yields it (a bit-field: the low `width` bits, re-extended; C04), ND_COMMA sequences']
     r016(cg, rep)
     rep.rule('R01.5', 'every integer-to-integer (and to _Bool) conversion emits the extension/truncation the register convention requires for (from,to)', floor=90)
     r015(cg, rep, 'int')
@@ -373,11 +374,11 @@ def run(P, rep, tier):
     r_conversion_sites(P, rep, 'R01.4')
     r_return_conversion(P, rep)
     from ..lib_c01unary import r_unary_operators, r_incdec, r_bitfield_operands
-    rep.rule('R01.14', 'unary + - ~ !: the tree unary() builds, typed by add_type, has the C11 type (the promoted type of the operand; int for !) and value for every integer operand type, and leaves the operand unmodified (C11 6.5.3.3)', floor=50)
+    rep.rule('R01.14', 'unary + - ~ !: the tree unary() builds, typed by add_type, has the C11 type (the promoted type of the operand; int for !) and value for every integer operand type, and leaves the operand unmodified (C11 6.5.3.3)', floor=30)
     r_unary_operators(P, rep, 'R01.14')
-    rep.rule('R01.15', '++ and --: for every integer object type, pointers and bit-fields the tree built for the prefix form yields the new value and the tree built for the postfix form yields the value the object had before, and both store (T)(x +/- 1) (C11 6.5.2.4, 6.5.3.1); decided by evaluating the built tree on boundary values', floor=60)
+    rep.rule('R01.15', '++ and --: for every integer object type, pointers and bit-fields the tree built for the prefix form yields the new value and the tree built for the postfix form yields the value the object had before, and both store (T)(x +/- 1) (C11 6.5.2.4, 6.5.3.1); decided by evaluating the built tree on boundary values', floor=30)
     r_incdec(P, rep, 'R01.15')
-    rep.rule('R01.16', 'integer promotions of bit-field operands (C11 6.3.1.1p2): a bit-field of type _Bool/int/unsigned whose values all fit an int is an int in arithmetic, comparisons, shifts and unary operators, whatever its declared type', floor=18)
+    rep.rule('R01.16', 'integer promotions of bit-field operands (C11 6.3.1.1p2): a bit-field of type _Bool/int/unsigned whose values all fit an int is an int in arithmetic, comparisons, shifts and unary operators, whatever its declared type', floor=12)
     r_bitfield_operands(P, rep, 'R01.16')
     from .c16 import r_atomic_operand_type
     r_atomic_operand_type(P, rep, 'R01.4')
